@@ -90,9 +90,9 @@ def _run(c, prop, parts, quick, thorough):
 
 
 def c12(c):
-    c.assumptions += ["c12_message_roundtrip covers one uncompressed or (under the law 'reading the decompressor to its end gives the message') compressed "
-                      "message written by write_message and fed in one piece to an idle receiver without a length limit; several messages, interleaved "
-                      "control frames, limits and arbitrary segmentation are decided by the differential run and the round-trip oracle on every run"]
+    c.assumptions += ["the round-trip theorems cover one uncompressed or (under the law 'reading the decompressor to its end gives the message') compressed message "
+                      "written by write_message and fed, in any segmentation, to an idle receiver with MessageLengthLimit = 0 and ReadLimit = 0; several messages, "
+                      "interleaved control frames and limits > 0 are decided by the differential run and the round-trip oracle on every run"]
     _run(c, "C12", "12", 1500, 60000)
 
 
@@ -118,14 +118,17 @@ MANIFEST = {
                   "differential run of the extracted model against real Conn pairs + implementation-side round-trip oracle",
         text="coq/ws/C12.v: c12_frame_roundtrip (decoding an encoded frame gives the frame and the rest: all lengths < 2^63, masked with any key or not, any "
              "FIN/RSV1/opcode), c12_message_roundtrip (Parse on an idle connection given what WriteMessage wrote delivers exactly that message, once, with its type: "
-             "any length incl. 0, any frame limit > 0, both roles, any mask keys) and c12_message_roundtrip_compressed (the same with permessage-deflate under the single "
-             "law 'reading the decompressor to its end gives back the message'; deflate output and reader answers are oracle inputs). Every run: real websocket.Conn "
+             "any length incl. 0, any frame limit > 0, both roles, any mask keys), c12_message_roundtrip_compressed (the same with permessage-deflate under the single "
+             "law 'reading the decompressor to its end gives back the message'; deflate output and reader answers are oracle inputs), c12_segmentation (feeding any list of "
+             "reads = feeding their concatenation: same events, oracle consumption, error, final state; receiver without limits) and c12_segmentation_success (success "
+             "direction for every message limit), c12_message_roundtrip_segmented / _compressed_segmented (the round trip for EVERY cut of the wire into reads), c12_fuel "
+             "(the model's loop bound is never hit). Every run: real websocket.Conn "
              "sender and receiver over an in-memory connection (both roles, compression on/off and all levels, frame limits 1..1 MiB, lengths 0/1/125-127/65535-65537/"
              "around the frame limit/MiBs, random, compressible and UTF-8 content, pings between messages and control frames spliced between fragments, all compositions of "
              "short wires, byte-wise, single cuts, random cuts); the sender's wire bytes and the receiver's events and state are compared with the model; oracle: "
              "delivered == sent (type, payload, once, in order), pings answered, and the wire decodes with an independent decoder and compress/flate.",
-        note="Partial: several messages with interleaved control frames, a receiver-side length limit and arbitrary segmentation are decided by the differential run and the "
-             "oracle, not by a theorem; DEFLATE and the unrolled XOR loop are outside the proof. Found on the pinned tree and fixed in /repo (D29 control frames fragmented "
+        note="Partial: sequences of several messages with interleaved control frames and the round trip under a receiver-side length limit > 0 are decided by the differential "
+             "run and the oracle, not by one theorem; DEFLATE and the unrolled XOR loop are outside the proof. Found on the pinned tree and fixed in /repo (D29 control frames fragmented "
              "when MaxWebsocketFramePayloadSize < payload, D30 control frames counted against MessageLengthLimit); both oracle signatures stay armed.",
         design="4/C12, Appendix D, L"),
     "C13": dict(
